@@ -2850,6 +2850,9 @@ Proof.
     rewrite IH; [reflexivity|discriminate|lia].
 Qed.
 
+Lemma hd_offs_of qs cur : qs <> [] -> hd 0 (offs_of cur qs) = cur.
+Proof. destruct qs; [congruence|reflexivity]. Qed.
+
 Lemma offs_of_sorted : forall qs cur, sorted_from cur (offs_of cur qs).
 Proof.
   induction qs as [|q qs IH]; intros cur; cbn [offs_of sorted_from]; [exact I|].
@@ -3016,15 +3019,457 @@ Proof.
     { rewrite lenN_app, lenN_flat_map_le4. unfold lenN at 1. rewrite Hlo, N_of_nat_of. reflexivity. }
     rewrite Htot in Hlt.
     rewrite <- Hlo, s_offsets_complete.
-    + cbn [obind]. destruct qs as [|q qs'] eqn:Eqs; [change (lenN (@nil (list byte))) with 0 in Hlq; lia|].
-      rewrite <- Eqs in *. assert (Hoffs : offs = 4 * n :: tl offs) by (unfold offs; rewrite Eqs; reflexivity).
-      rewrite Hoffs at 1. cbn [hd]. rewrite mul64_4, N.eqb_refl by exact Hn56. cbn [negb].
+    + cbn [obind].
+      assert (Hne : qs <> []) by (intros Hq; rewrite Hq in Hlq; change (lenN (@nil (list byte))) with 0 in Hlq; lia).
+      unfold offs at 1. rewrite (hd_offs_of _ _ Hne), mul64_4, N.eqb_refl by exact Hn56. cbn [negb].
       rewrite Htot. unfold offs.
-      rewrite (s_var_elems_complete (sdc e) _ _ _ Hd); [|rewrite Eqs; discriminate|reflexivity].
+      rewrite (s_var_elems_complete (sdc e) _ _ _ Hd); [|exact Hne|reflexivity].
       cbn [obind].
       destruct (build_vector_nb e n ns vs Hbasic Hn56 Hr Hlen) as (nd & E & R).
       exists nd. rewrite E. split; [reflexivity|exact R].
     + apply (sorted_from_weaken _ (4 * n)); [lia|apply offs_of_sorted].
     + apply (Forall_lt_of_le _ (4 * n + lenN (concat qs))); [exact Hlt|].
       apply offs_of_bound. lia.
+Qed.
+
+(* ---- lists ---- *)
+Lemma sumN_pos_all {A} (g : A -> N) l : l <> [] -> Forall (fun x => 1 <= g x) l -> 1 <= sumN (map g l).
+Proof.
+  intros Hne HF. destruct l as [|x l]; [congruence|]. cbn [map]. rewrite sumN_cons.
+  pose proof (Forall_inv HF) as Hx. cbv beta in Hx. lia.
+Qed.
+
+Lemma fixed_len_pos : forall t, wf_ty t = true -> spec_is_fixed t = true -> 1 <= spec_fixed_len t.
+Proof.
+  induction t as [w| |k| |k|k|e k IHe|e k IHe|fs IHfs|none opts IHopts] using ty_ind';
+    intros Hwf Hfx; cbn [spec_is_fixed] in Hfx; try discriminate Hfx; cbn [spec_fixed_len wf_ty] in *.
+  - apply uint_width_pos, Hwf.
+  - lia.
+  - apply andb_prop in Hwf. destruct Hwf as [H1 _]. apply N.leb_le in H1. exact H1.
+  - lia.
+  - apply N.leb_le in Hwf. lia.
+  - apply andb_prop in Hwf. destruct Hwf as [H1 Hwfe]. apply N.leb_le in H1.
+    rewrite Hfx. specialize (IHe Hwfe Hfx). nia.
+  - rewrite Hfx. apply andb_prop in Hwf. destruct Hwf as [Hne Hwf].
+    apply sumN_pos_all; [destruct fs; [discriminate Hne|discriminate]|].
+    rewrite forallb_forall in Hwf, Hfx. rewrite Forall_forall in *. intros f Hin.
+    apply IHfs; auto.
+Qed.
+
+Lemma lenN_zero_nil {A} (l : list A) : lenN l = 0 -> l = [].
+Proof. destruct l; [reflexivity|]. rewrite lenN_cons. lia. Qed.
+
+Lemma mul64_exact a b s : mul64 a b = s -> a * b <= s -> a * b = s.
+Proof.
+  unfold mul64, wrap64. intros H Hle. pose proof two64_pos.
+  assert (s < two64) by (rewrite <- H; apply N.mod_lt; lia).
+  rewrite N.mod_small in H by lia. exact H.
+Qed.
+
+Lemma div_mul_le a b : a / b * b <= a.
+Proof.
+  destruct (N.eq_dec b 0) as [->|Hz]; [lia|]. rewrite N.mul_comm. apply N.mul_div_le, Hz.
+Qed.
+
+Lemma has_type_empty_list e n : has_type (VSeq []) (TList e n) = true.
+Proof.
+  rewrite has_type_list. cbn [forallb]. rewrite andb_true_r. apply N.leb_le.
+  change (lenN (@nil val)) with 0. lia.
+Qed.
+
+Lemma canon_list e n :
+  wf_ty (TList e n) = true -> small_params (TList e n) = true ->
+  sizes_ok (TList e n) = true -> canon_ty e -> canon_ty (TList e n).
+Proof.
+  intros Hwf Hsp Hso Hce bs nd H.
+  pose proof Hsp as Hsp'. cbn [small_params] in Hsp'. apply andb_prop in Hsp'.
+  destruct Hsp' as [Hn56 _]. apply N.leb_le in Hn56.
+  cbn [wf_ty] in Hwf.
+  cbn [sdec] in H. rewrite default_node_list in H. cbn [r2o] in H.
+  destruct (is_basic_elem e) eqn:Hbasic;
+    [|destruct (lenN bs =? 0) eqn:Hs0; [|destruct (ti_fixed (info e)) eqn:Hfx]].
+  - destruct (is_basic_uint e Hbasic) as [w ->]. cbn [wf_ty] in Hwf. cbn [info ti_size] in H.
+    pose proof (uint_width_pos w Hwf) as Hw1.
+    ifErr H. apply N.ltb_ge in Heqb. ifErr H. apply negb_false_iff, N.eqb_eq in Heqb0.
+    apply mul64_exact in Heqb0; [|apply div_mul_le].
+    destruct (lenN bs / w =? 0) eqn:Hl0.
+    + injection H as <-. apply N.eqb_eq in Hl0. rewrite Hl0 in Heqb0.
+      assert (bs = []) as -> by (apply lenN_zero_nil; lia).
+      exists (VSeq []). split; [apply has_type_empty_list|]. split; [reflexivity|apply repr_empty_list].
+    + obindS H E. apply r2o_some in E. injection H as <-.
+      destruct (uint_series_decode w Hw1 (nat_of (lenN bs / w)) bs) as (vs & Hlen & Hty & Hbs).
+      { rewrite N_of_nat_of. symmetry. exact Heqb0. }
+      apply lenN_nat_of in Hlen.
+      destruct (build_list_uint w n vs Hwf Hn56 ltac:(lia) Hty) as (c & Ec & Rc).
+      rewrite Hbs in E at 1. rewrite Ec in E. injection E as <-. rewrite <- Hlen.
+      exists (VSeq vs). split; [|split; [|exact Rc]].
+      * rewrite has_type_list, Hty, andb_true_r. apply N.leb_le. lia.
+      * rewrite spec_ser_list, ser_series_uint. exact Hbs.
+  - injection H as <-. apply N.eqb_eq in Hs0. apply lenN_zero_nil in Hs0. subst bs.
+    exists (VSeq []). split; [apply has_type_empty_list|]. split; [reflexivity|apply repr_empty_list].
+  - ifErr H. apply N.ltb_ge in Heqb. ifErr H. apply negb_false_iff, N.eqb_eq in Heqb0.
+    apply mul64_exact in Heqb0; [|apply div_mul_le].
+    obindS H E. obindS H E2. apply r2o_some in E2. injection H as <-.
+    destruct (s_fixed_series_shape _ _ _ _ _ E) as (pieces & rest & Hbs & Hd & Hsz & Hlen).
+    apply lenN_nat_of in Hlen.
+    assert (Hrest : rest = []).
+    { assert (Hl : lenN bs = lenN (concat pieces) + lenN rest) by (rewrite Hbs, lenN_app; reflexivity).
+      rewrite (lenN_concat_const _ _ Hsz), Hlen in Hl.
+      destruct rest; [reflexivity|]. rewrite lenN_cons in Hl. lia. }
+    subst rest. rewrite app_nil_r in Hbs.
+    destruct (elems_canon e pieces l Hce Hd) as (vs & Hty & -> & Hr).
+    rewrite lenN_map' in Hlen.
+    destruct (build_list_nb e n l vs Hbasic Hn56 Hr ltac:(lia)) as (c & Ec & Rc).
+    rewrite Ec in E2. injection E2 as <-. rewrite <- Hlen.
+    exists (VSeq vs). split; [|split; [|exact Rc]].
+    + rewrite has_type_list, Hty, andb_true_r. apply N.leb_le. lia.
+    + rewrite spec_ser_list, ser_series_fixed by (rewrite <- info_fixed_flag; exact Hfx). exact Hbs.
+  - destruct (N.ltb_spec (lenN bs) 4) as [|Hs4]; [discriminate H|].
+    set (first := le_val (firstn 4 bs)) in *.
+    ifErr H. apply negb_false_iff, N.eqb_eq in Heqb. ifErr H. apply N.ltb_ge in Heqb0.
+    ifErr H. apply orb_false_elim in Heqb1. destruct Heqb1 as [Hf0 Hfs].
+    apply N.eqb_neq in Hf0. apply N.ltb_ge in Hfs.
+    obindS H E. destruct p as [offs rest]. obindS H E2. obindS H E3. apply r2o_some in E3.
+    injection H as <-.
+    assert (Hfirst : 4 + 4 * (first / 4 - 1) = first /\ 1 <= first / 4).
+    { pose proof (N.div_mod first 4 ltac:(lia)) as Hdm. rewrite Heqb in Hdm.
+      assert (first / 4 <> 0) by (intros Hz; rewrite Hz in Hdm; lia). lia. }
+    destruct Hfirst as [Hfirst Hlen1].
+    destruct (s_offsets_shape _ _ _ _ _ E) as (Hbs & Hlen & Hsorted & Hlt).
+    apply lenN_nat_of in Hlen.
+    assert (Hl4 : length (firstn 4 bs) = 4%nat) by (rewrite firstn_length; unfold lenN in Hs4; lia).
+    assert (Hbs' : bs = flat_map (le_bytes 4) (first :: offs) ++ rest).
+    { rewrite flat_map_cons', <- app_assoc, <- Hbs. unfold first.
+      replace (le_bytes 4 (le_val (firstn 4 bs))) with (firstn 4 bs)
+        by (rewrite <- Hl4 at 2; symmetry; apply le_bytes_le_val).
+      symmetry. apply firstn_skipn. }
+    assert (HlenR : lenN rest = lenN bs - first).
+    { assert (Hl : lenN bs = lenN (flat_map (le_bytes 4) (first :: offs) ++ rest))
+        by (rewrite <- Hbs'; reflexivity).
+      rewrite lenN_app, lenN_flat_map_le4, lenN_cons, Hlen in Hl. lia. }
+    destruct (s_var_elems_shape _ _ _ _ _ _ Hsorted HlenR E2) as (qs & HR & Hd & Hoffs & _).
+    destruct (elems_canon e qs l Hce Hd) as (vs & Hty & -> & Hr).
+    assert (Hlvs : lenN vs = first / 4).
+    { assert (Hq : lenN (offs_of first (map (spec_ser e) vs)) = lenN (first :: offs)) by (rewrite Hoffs; reflexivity).
+      unfold lenN at 1 in Hq. rewrite offs_of_length, map_length in Hq. fold (lenN vs) in Hq.
+      rewrite lenN_cons, Hlen in Hq. lia. }
+    destruct (build_list_nb e n l vs Hbasic Hn56 Hr ltac:(lia)) as (c & Ec & Rc).
+    rewrite Ec in E3. injection E3 as <-. rewrite <- Hlvs.
+    exists (VSeq vs). split; [|split; [|exact Rc]].
+    + rewrite has_type_list, Hty, andb_true_r. apply N.leb_le. lia.
+    + rewrite spec_ser_list, ser_series_var by (rewrite <- info_fixed_flag; exact Hfx).
+      rewrite ser_parts_all_var, lenN_map', Hlvs.
+      replace (4 * (first / 4)) with first by lia. rewrite Hoffs, <- HR. exact Hbs'.
+Qed.
+
+Lemma ser_parts_nil : ser_parts [] = [].
+Proof. reflexivity. Qed.
+
+Lemma firstn_app_exact {A} (a b : list A) k : length a = k -> firstn k (a ++ b) = a.
+Proof. intros <-. rewrite firstn_app, Nat.sub_diag, firstn_O, app_nil_r. apply firstn_all. Qed.
+
+Lemma skipn_app_exact {A} (a b : list A) k : length a = k -> skipn k (a ++ b) = b.
+Proof. intros <-. rewrite skipn_app, Nat.sub_diag, skipn_O, skipn_all. reflexivity. Qed.
+
+Lemma compl_list e n :
+  wf_ty (TList e n) = true -> small_params (TList e n) = true ->
+  sizes_ok (TList e n) = true -> compl_ty e -> compl_ty (TList e n).
+Proof.
+  intros Hwf Hsp Hso Hce v Hty Hlt. pose proof two32_lt_two64 as H3264.
+  pose proof Hsp as Hsp'. cbn [small_params] in Hsp'. apply andb_prop in Hsp'.
+  destruct Hsp' as [Hn56 Hspe]. apply N.leb_le in Hn56.
+  pose proof Hso as Hso'. cbn [sizes_ok] in Hso'. apply andb_prop in Hso'. destruct Hso' as [_ Hsoe].
+  cbn [wf_ty] in Hwf.
+  destruct v; try discriminate Hty. rewrite has_type_list in Hty. apply andb_prop in Hty.
+  destruct Hty as [Hlen Htys]. apply N.leb_le in Hlen.
+  rewrite spec_ser_list in *. cbn [sdec]. rewrite default_node_list. cbn [r2o].
+  destruct (is_basic_elem e) eqn:Hbasic.
+  - destruct (is_basic_uint e Hbasic) as [w ->]. cbn [wf_ty] in Hwf.
+    pose proof (uint_width_pos w Hwf) as Hw1.
+    rewrite ser_series_uint in *. cbn [info ti_size].
+    rewrite lenN_flat_map_uint in * by exact Htys.
+    rewrite N.div_mul by lia.
+    destruct (N.ltb_spec n (lenN vs)); [lia|].
+    rewrite mul64_small, N.eqb_refl by lia. cbn [negb].
+    destruct (N.eqb_spec (lenN vs) 0) as [Hz|Hnz].
+    + apply lenN_zero_nil in Hz. subst vs. eexists. split; [reflexivity|apply repr_empty_list].
+    + destruct (build_list_uint w n vs Hwf Hn56 Hlen Htys) as (c & Ec & Rc).
+      rewrite Ec. cbn [r2o obind]. eexists. split; [reflexivity|exact Rc].
+  - destruct vs as [|v0 vs0].
+    { cbn [map]. change (ser_parts []) with (@nil byte). change (lenN (@nil byte) =? 0) with true. cbv iota.
+      eexists. split; [reflexivity|apply repr_empty_list]. }
+    set (vs := v0 :: vs0) in *.
+    assert (Hvs1 : 1 <= lenN vs) by (unfold vs; rewrite lenN_cons; lia).
+    destruct (ti_fixed (info e)) eqn:Hfx.
+    + assert (Hsf : spec_is_fixed e = true) by (rewrite <- info_fixed_flag; exact Hfx).
+      rewrite ser_series_fixed in * by exact Hsf.
+      destruct (elems_compl e vs Hce Htys) as (ns & Hd & Hr).
+      { pose proof (series_elem_len true (spec_ser e) vs) as HF.
+        rewrite <- Hsf, ser_series_fixed in HF by exact Hsf.
+        eapply Forall_impl; [|exact HF]. cbv beta. intros; lia. }
+      destruct (info_ok_of e Hspe Hsoe) as (_ & _ & Hsize).
+      assert (Hsz : Forall (fun p => lenN p = ti_size (info e)) (map (spec_ser e) vs)).
+      { rewrite Hsize. apply Forall_forall.
+        intros p Hin. apply in_map_iff in Hin. destruct Hin as (x & <- & Hx).
+        apply spec_ser_fixed_len; [exact Hsf|]. rewrite forallb_forall in Htys. apply Htys, Hx. }
+      pose proof (fixed_len_pos e Hwf Hsf) as Hpos. rewrite <- Hsize in Hpos.
+      rewrite (lenN_concat_const _ _ Hsz), lenN_map' in *.
+      destruct (N.eqb_spec (lenN vs * ti_size (info e)) 0) as [Hz|_]; [nia|].
+      rewrite N.div_mul by lia.
+      destruct (N.ltb_spec n (lenN vs)); [lia|].
+      rewrite mul64_small, N.eqb_refl by lia. cbn [negb].
+      pose proof (s_fixed_series_complete (sdc e) _ _ _ [] Hd Hsz) as Hser.
+      rewrite app_nil_r, map_length in Hser.
+      replace (nat_of (lenN vs)) with (length vs) by (unfold nat_of, lenN; lia).
+      rewrite Hser. cbn [obind].
+      destruct (build_list_nb e n ns vs Hbasic Hn56 Hr Hlen) as (c & Ec & Rc).
+      rewrite Ec. cbn [r2o obind]. eexists. split; [reflexivity|exact Rc].
+    + assert (Hsf : spec_is_fixed e = false) by (rewrite <- info_fixed_flag; exact Hfx).
+      rewrite ser_series_var in * by exact Hsf. set (qs := map (spec_ser e) vs) in *.
+      rewrite ser_parts_all_var in *.
+      assert (Hlq : lenN qs = lenN vs) by (unfold qs; apply lenN_map').
+      rewrite Hlq in *.
+      destruct (elems_compl e vs Hce Htys) as (ns & Hd & Hr).
+      { pose proof (series_elem_len false (spec_ser e) vs) as HF.
+        rewrite <- Hsf, ser_series_var in HF by exact Hsf. fold qs in HF.
+        rewrite ser_parts_all_var, Hlq in HF.
+        eapply Forall_impl; [|exact HF]. cbv beta. intros; lia. }
+      fold qs in Hd.
+      set (first := 4 * lenN vs) in *.
+      assert (Hqs : qs = spec_ser e v0 :: map (spec_ser e) vs0) by reflexivity.
+      assert (Hne : qs <> []) by (rewrite Hqs; discriminate).
+      set (offs' := offs_of (first + lenN (spec_ser e v0)) (map (spec_ser e) vs0)).
+      assert (Hoffs : offs_of first qs = first :: offs') by (rewrite Hqs; reflexivity).
+      assert (Hlo : length offs' = nat_of (lenN vs - 1)).
+      { unfold offs'. rewrite offs_of_length, map_length. unfold vs. rewrite lenN_cons.
+        unfold nat_of, lenN. lia. }
+      rewrite Hoffs in *. rewrite flat_map_cons', <- app_assoc in *.
+      set (tail := flat_map (le_bytes 4) offs' ++ concat qs) in *.
+      assert (Htot : lenN (le_bytes 4 first ++ tail) = first + lenN (concat qs)).
+      { unfold tail. rewrite !lenN_app, lenN_flat_map_le4. unfold lenN at 1 2.
+        rewrite le_bytes_length, Hlo, N_of_nat_of. unfold first. lia. }
+      rewrite Htot in *.
+      destruct (N.eqb_spec (first + lenN (concat qs)) 0) as [|_]; [unfold first in *; lia|].
+      destruct (N.ltb_spec (first + lenN (concat qs)) 4); [unfold first in *; lia|].
+      rewrite (firstn_app_exact (le_bytes 4 first) tail 4) by apply le_bytes_length.
+      rewrite (skipn_app_exact (le_bytes 4 first) tail 4) by apply le_bytes_length.
+      rewrite le_val_u32 by lia.
+      assert (Hm : first mod 4 = 0) by (unfold first; rewrite N.mul_comm; apply N.mod_mul; lia).
+      assert (Hdv : first / 4 = lenN vs) by (unfold first; rewrite N.mul_comm; apply N.div_mul; lia).
+      rewrite Hm, Hdv. cbn [N.eqb negb].
+      destruct (N.ltb_spec n (lenN vs)); [lia|].
+      destruct (N.eqb_spec first 0) as [|_]; [unfold first in *; lia|].
+      destruct (N.ltb_spec (first + lenN (concat qs)) first); [lia|]. cbn [orb].
+      pose proof (offs_of_sorted qs first) as Hsorted. rewrite Hoffs in Hsorted.
+      destruct Hsorted as [_ Hsorted].
+      pose proof (offs_of_bound qs first (first + lenN (concat qs)) ltac:(lia)) as Hbound.
+      rewrite Hoffs in Hbound. pose proof (Forall_inv_tail Hbound) as Hbound'.
+      rewrite <- Hlo. unfold tail.
+      rewrite (s_offsets_complete offs' first (concat qs) Hsorted
+                 (Forall_lt_of_le _ _ _ Hlt Hbound')).
+      cbn [obind]. rewrite <- Hoffs.
+      rewrite (s_var_elems_complete (sdc e) _ _ _ Hd first Hne eq_refl). cbn [obind].
+      destruct (build_list_nb e n ns vs Hbasic Hn56 Hr Hlen) as (c & Ec & Rc).
+      rewrite Ec. cbn [r2o obind]. eexists. split; [reflexivity|exact Rc].
+Qed.
+
+(* ---- containers ---- *)
+Inductive dec_fields : list ty -> list pfield -> list node -> Prop :=
+| DF_nil : dec_fields [] [] []
+| DF_fixed f b n fs ps ns :
+    ti_fixed (info f) = true -> sdc f b = Some n -> lenN b = ti_size (info f) ->
+    dec_fields fs ps ns -> dec_fields (f :: fs) (PF b :: ps) (n :: ns)
+| DF_var f off b n fs ps ns :
+    ti_fixed (info f) = false -> sdc f b = Some n ->
+    dec_fields fs ps ns -> dec_fields (f :: fs) (PV off b :: ps) (n :: ns).
+
+Definition var_start (cfs : list cfield) (scope : N) : N :=
+  match cf_offs cfs with [] => scope | o :: _ => o end.
+
+Notation sfds fs := (combine (map info fs) (map sdc fs)).
+
+Lemma s_cont_fixed_facts : forall fs first fp prev scope bs cfs rest,
+  s_cont_fixed (sfds fs) first fp prev scope bs = Some (cfs, rest) ->
+  length cfs = length fs /\ sorted_from prev (cf_offs cfs) /\
+  Forall (fun o => o <= scope) (cf_offs cfs) /\
+  (first = true -> match cf_offs cfs with o :: _ => o = fp | [] => True end) /\
+  lenN bs = fp_len fs + lenN rest.
+Proof.
+  induction fs as [|f fs IH]; intros first fp prev scope bs cfs rest H.
+  - cbn [map combine s_cont_fixed] in H. injection H as <- <-.
+    repeat split; try constructor.
+  - cbn [map combine s_cont_fixed] in H. unfold fp_len. cbn [map]. rewrite sumN_cons.
+    fold (fp_len fs). unfold fld_len.
+    destruct (ti_fixed (info f)) eqn:Hfx.
+    + destruct (N.ltb_spec (lenN bs) (ti_size (info f))) as [|Hl]; [discriminate H|].
+      obindS H E1. obindS H E2. destruct p as [cs bs'].
+      assert (Hc : cfs = CFixed n :: cs /\ rest = bs') by (split; congruence).
+      destruct Hc as [-> ->]. clear H.
+      destruct (IH _ _ _ _ _ _ _ E2) as (I1 & I2 & I3 & I4 & I5).
+      rewrite lenN_skipn' in I5. cbn [length cf_offs].
+      repeat split; try assumption; lia.
+    + destruct (N.ltb_spec (lenN bs) 4) as [|Hl]; [discriminate H|].
+      destruct (N.ltb_spec (le_val (firstn 4 bs)) prev) as [|Hp]; [discriminate H|].
+      destruct (N.ltb_spec scope (le_val (firstn 4 bs))) as [|Hs]; [discriminate H|].
+      destruct (first && negb (le_val (firstn 4 bs) =? fp)) eqn:Hfirst; [discriminate H|].
+      obindS H E2. destruct p as [cs bs'].
+      assert (Hc : cfs = CVar (le_val (firstn 4 bs)) :: cs /\ rest = bs') by (split; congruence).
+      destruct Hc as [-> ->]. clear H.
+      destruct (IH _ _ _ _ _ _ _ E2) as (I1 & I2 & I3 & I4 & I5).
+      rewrite lenN_skipn in I5. cbn [length cf_offs].
+      split; [lia|]. split; [split; assumption|]. split; [constructor; assumption|].
+      split; [|change (N.of_nat 4) with 4 in I5; lia].
+      intros ->. cbn [andb] in Hfirst. apply negb_false_iff, N.eqb_eq in Hfirst. exact Hfirst.
+Qed.
+
+Lemma var_start_le cfs scope prev :
+  sorted_from prev (cf_offs cfs) -> prev <= scope -> prev <= var_start cfs scope.
+Proof. unfold var_start. destruct (cf_offs cfs); [auto|]. intros [H _] _. exact H. Qed.
+
+Lemma cont_slots : forall fs first fp prev scope bs cfs rest R ns,
+  s_cont_fixed (sfds fs) first fp prev scope bs = Some (cfs, rest) ->
+  s_cont_var (combine cfs (map sdc fs)) scope R = Some ns ->
+  lenN R = scope - var_start cfs scope ->
+  exists ps, dec_fields fs ps ns /\ bs = flat_map pf_fixed ps ++ rest /\
+             R = flat_map pf_var ps /\ offs_ok (var_start cfs scope) ps.
+Proof.
+  induction fs as [|f fs IH]; intros first fp prev scope bs cfs rest R ns H1 H2 HR.
+  - cbn [map combine s_cont_fixed] in H1. injection H1 as <- <-.
+    cbn [combine s_cont_var] in H2. injection H2 as <-.
+    unfold var_start in HR. cbn [cf_offs] in HR. rewrite N.sub_diag in HR.
+    apply lenN_zero_nil in HR. subst R.
+    exists []. repeat split; constructor.
+  - cbn [map combine s_cont_fixed] in H1.
+    destruct (ti_fixed (info f)) eqn:Hfx.
+    + destruct (N.ltb_spec (lenN bs) (ti_size (info f))) as [|Hl]; [discriminate H1|].
+      obindS H1 E1. obindS H1 E2. destruct p as [cs bs'].
+      assert (Hc : cfs = CFixed n :: cs /\ rest = bs') by (split; congruence).
+      destruct Hc as [-> ->]. clear H1.
+      cbn [map combine s_cont_var] in H2. obindS H2 E3. injection H2 as <-.
+      unfold var_start in *. cbn [cf_offs] in *.
+      destruct (IH _ _ _ _ _ _ _ _ _ E2 E3 HR) as (ps & Hd & Hbs & HRv & Hok).
+      exists (PF (firstn (nat_of (ti_size (info f))) bs) :: ps).
+      cbn [flat_map pf_fixed pf_var offs_ok app]. repeat split; try assumption.
+      * constructor; try assumption. rewrite lenN_firstn'. lia.
+      * rewrite <- app_assoc, <- Hbs. symmetry. apply firstn_skipn_N.
+    + destruct (N.ltb_spec (lenN bs) 4) as [|Hl]; [discriminate H1|].
+      set (off := le_val (firstn 4 bs)) in *.
+      destruct (N.ltb_spec off prev) as [|Hp]; [discriminate H1|].
+      destruct (N.ltb_spec scope off) as [|Hs]; [discriminate H1|].
+      destruct (first && negb (off =? fp)) eqn:Hfirst; [discriminate H1|].
+      obindS H1 E2. destruct p as [cs bs'].
+      assert (Hc : cfs = CVar off :: cs /\ rest = bs') by (split; congruence).
+      destruct Hc as [-> ->]. clear H1.
+      destruct (s_cont_fixed_facts _ _ _ _ _ _ _ _ E2) as (F1 & F2 & F3 & _ & _).
+      cbn [map combine s_cont_var] in H2.
+      rewrite cf_next_offs in H2 by (rewrite map_length; exact F1).
+      fold (var_start cs scope) in H2.
+      assert (Hvs : off <= var_start cs scope) by (apply var_start_le; assumption).
+      assert (Hsz : match cf_offs cs with [] => scope - off | o' :: _ => o' - off end
+                    = var_start cs scope - off) by (unfold var_start; destruct (cf_offs cs); reflexivity).
+      assert (Hsz' : match match cf_offs cs with [] => None | o :: _ => Some o end with
+                     | Some o' => o' - off | None => scope - off end = var_start cs scope - off)
+        by (unfold var_start; destruct (cf_offs cs); reflexivity).
+      rewrite Hsz' in H2. clear Hsz Hsz'.
+      unfold var_start at 1 in HR. cbn [cf_offs] in HR.
+      destruct (N.ltb_spec (lenN R) (var_start cs scope - off)) as [|HlR]; [discriminate H2|].
+      obindS H2 E3. obindS H2 E4. injection H2 as <-.
+      assert (HR' : lenN (skipn (nat_of (var_start cs scope - off)) R) = scope - var_start cs scope).
+      { rewrite lenN_skipn'. lia. }
+      destruct (IH _ _ _ _ _ _ _ _ _ E2 E4 HR') as (ps & Hd & Hbs & HRv & Hok).
+      exists (PV off (firstn (nat_of (var_start cs scope - off)) R) :: ps).
+      cbn [flat_map pf_fixed pf_var]. split; [|split; [|split]].
+      * constructor; assumption.
+      * rewrite <- app_assoc, <- Hbs.
+        assert (Hl4 : length (firstn 4 bs) = 4%nat) by (rewrite firstn_length; unfold lenN in Hl; lia).
+        replace (le_bytes 4 off) with (firstn 4 bs)
+          by (unfold off; rewrite <- Hl4 at 2; symmetry; apply le_bytes_le_val).
+        symmetry. apply firstn_skipn.
+      * rewrite <- HRv. symmetry. apply firstn_skipn_N.
+      * unfold var_start at 1. cbn [cf_offs offs_ok]. split; [reflexivity|].
+        rewrite lenN_firstn'. replace (off + N.min (var_start cs scope - off) (lenN R))
+          with (var_start cs scope) by lia. exact Hok.
+Qed.
+
+(* the decoded fields are the encodings of typed values *)
+Lemma fields_canon : forall fs ps ns, Forall canon_ty fs -> dec_fields fs ps ns ->
+  exists vs, rfields_ty fs vs = true /\ ser_fields fs vs = map pf_part ps /\
+             Forall2 (fun n (p : node -> Prop) => p n) ns (rfields_repr zh fs vs) /\
+             lenN ns = lenN fs.
+Proof.
+  intros fs ps ns HF Hd. induction Hd as [|f b n fs ps ns Hfx Hs Hl _ IH|f off b n fs ps ns Hfx Hs _ IH].
+  - exists []. repeat split. constructor.
+  - destruct (IH (Forall_inv_tail HF)) as (vs & Hty & Hser & Hr & Hlen).
+    destruct (Forall_inv HF _ _ Hs) as (v & Hv & Hb & Rv).
+    exists (v :: vs). cbn [rfields_ty ser_fields map pf_part rfields_repr].
+    rewrite Hv, Hty, Hser, <- Hb, <- info_fixed_flag, Hfx. repeat split.
+    + constructor; assumption.
+    + rewrite !lenN_cons, Hlen. reflexivity.
+  - destruct (IH (Forall_inv_tail HF)) as (vs & Hty & Hser & Hr & Hlen).
+    destruct (Forall_inv HF _ _ Hs) as (v & Hv & Hb & Rv).
+    exists (v :: vs). cbn [rfields_ty ser_fields map pf_part rfields_repr].
+    rewrite Hv, Hty, Hser, <- Hb, <- info_fixed_flag, Hfx. repeat split.
+    + constructor; assumption.
+    + rewrite !lenN_cons, Hlen. reflexivity.
+Qed.
+
+Lemma dec_fields_fixed_len : forall fs ps ns, dec_fields fs ps ns ->
+  lenN (flat_map pf_fixed ps) = fp_len fs.
+Proof.
+  induction 1 as [|f b n fs ps ns Hfx Hs Hl _ IH|f off b n fs ps ns Hfx Hs _ IH]; [reflexivity| |];
+    cbn [flat_map pf_fixed]; unfold fp_len; cbn [map]; rewrite sumN_cons, lenN_app;
+    fold (fp_len fs); rewrite IH; unfold fld_len; rewrite Hfx; [lia|].
+  unfold lenN at 1. rewrite le_bytes_length. reflexivity.
+Qed.
+
+Lemma cf_offs_nil_nvar : forall fs first fp prev scope bs cfs rest,
+  s_cont_fixed (sfds fs) first fp prev scope bs = Some (cfs, rest) ->
+  cf_offs cfs = [] -> nvar fs = 0.
+Proof.
+  induction fs as [|f fs IH]; intros first fp prev scope bs cfs rest H Ho; [reflexivity|].
+  cbn [map combine s_cont_fixed] in H. unfold nvar. cbn [map]. rewrite sumN_cons. fold (nvar fs).
+  unfold fld_nvar. destruct (ti_fixed (info f)) eqn:Hfx.
+  - ifErr H. obindS H E1. obindS H E2. destruct p as [cs bs'].
+    assert (Hc : cfs = CFixed n :: cs) by congruence. subst cfs. cbn [cf_offs] in Ho.
+    rewrite (IH _ _ _ _ _ _ _ E2 Ho). reflexivity.
+  - ifErr H. ifErr H. ifErr H. ifErr H. obindS H E2. destruct p as [cs bs'].
+    assert (Hc : cfs = CVar (le_val (firstn 4 bs)) :: cs) by congruence. subst cfs.
+    discriminate Ho.
+Qed.
+
+Lemma canon_container fs :
+  wf_ty (TContainer fs) = true -> small_params (TContainer fs) = true ->
+  sizes_ok (TContainer fs) = true -> small_fields (TContainer fs) = true ->
+  Forall canon_ty fs -> canon_ty (TContainer fs).
+Proof.
+  intros Hwf Hsp Hso Hsf HF bs nd H.
+  assert (Hio : info_ok (TContainer fs)) by (apply info_ok_of; assumption).
+  pose proof (sizes_ok_max _ Hso) as Hmax.
+  assert (Hios : Forall info_ok fs).
+  { cbn [small_params sizes_ok] in Hsp, Hso. apply andb_prop in Hso. destruct Hso as [_ Hso].
+    pose proof (forallb_Forall2 _ _ _ Hsp Hso) as HH. eapply Forall_impl; [|exact HH].
+    cbv beta. intros f [H1 H2]. apply info_ok_of; assumption. }
+  assert (Hne : fs <> []).
+  { cbn [wf_ty] in Hwf. apply andb_prop in Hwf. destruct Hwf as [Hwf _].
+    destruct fs; [discriminate Hwf|discriminate]. }
+  pose proof (container_fp fs Hne Hios Hmax) as Hfp.
+  cbn [small_fields] in Hsf. apply andb_prop in Hsf. destruct Hsf as [Hcnt _]. apply N.leb_le in Hcnt.
+  cbn [sdec] in H. ifErr H. apply orb_false_elim in Heqb.
+  destruct Heqb as [Hmin Hmx]. apply N.ltb_ge in Hmin, Hmx.
+  obindS H E1. destruct p as [cfs rest]. obindS H E2. apply r2o_some in H.
+  destruct (s_cont_fixed_facts _ _ _ _ _ _ _ _ E1) as (F1 & F2 & F3 & F4 & F5).
+  assert (Hvs : var_start cfs (lenN bs) = fp_len fs).
+  { unfold var_start. specialize (F4 eq_refl). destruct (cf_offs cfs) as [|o1 r] eqn:Eo.
+    - destruct (container_fixed_minmax fs Hios Hio (cf_offs_nil_nvar _ _ _ _ _ _ _ _ E1 Eo)) as [M1 M2].
+      lia.
+    - rewrite F4. exact Hfp. }
+  destruct (cont_slots _ _ _ _ _ _ _ _ _ _ E1 E2 ltac:(rewrite Hvs; lia))
+    as (ps & Hd & Hbs & HR & Hok).
+  destruct (fields_canon _ _ _ HF Hd) as (vs & Hty & Hser & Hr & Hlen).
+  destruct (build_container fs l vs Hcnt Hr Hlen) as (nd' & E & R).
+  rewrite E in H. injection H as <-.
+  exists (VCont vs). split; [rewrite has_type_cont; exact Hty|]. split; [|exact R].
+  rewrite spec_ser_cont, Hser, ser_parts_layout.
+  - rewrite <- HR. exact Hbs.
+  - rewrite (dec_fields_fixed_len _ _ _ Hd), <- Hvs. exact Hok.
 Qed.
